@@ -35,6 +35,7 @@ def main(tier, seed, replay=None):
         c["ops"] = [["wdata"]] + states.observe_at(rng, c, nsets=2) + [["wdata"]]
         cases.append(c)
     results, nterms, nskip, hist = states.run_states(run, "C02", binp, cases, 2, lambda code: code in (2, 4, 5), "residuals")
+    rterms, rhist = states.run_rankdef(run, "C02", binp, rng, 24 if tier == "quick" else 500, (4, 8))
     nwd = 0
     for c, r in zip(cases, results):
         if r.get("steps") and r["head"].get("build") == "ok":
@@ -95,11 +96,13 @@ def main(tier, seed, replay=None):
         "evaluations": nterms + len(terms) + nwd, "distinct_nontrivial": nterms - nskip + len(terms),
         "rule": "residual vectors at construction and after two updates for random problems (all families / weights / constructors / widths), "
                 "checked in exact arithmetic against W(Y - Phi C) both for the certified least-squares coefficients and for the "
-                "coefficients the implementation reports; weighted data bit-exact against w_i*y_is before and after the history and after "
+                "coefficients the implementation reports; the same at exactly rank-deficient bases with an active truncation (residuals for the "
+                "minimum-norm coefficients); weighted data bit-exact against w_i*y_is before and after the history and after "
                 "fits; for fit results: best fit vs Phi(alpha^)*C^ in exact arithmetic, its shape, nonlinear_parameters and coefficients "
                 "vs the final problem (exact)",
         "state_code_histogram": {str(k): v for k, v in hist.items()}, "skipped_ill_conditioned": nskip,
-        "weighted_data_checks": nwd, "best_fit_checks": len(terms)})
+        "weighted_data_checks": nwd, "best_fit_checks": len(terms),
+        "rank_deficient_states": len(rterms), "rank_deficient_code_histogram": {str(k): v for k, v in rhist.items()}})
     run.samples = [{"ctor": c["ctor"], "scalar": c["scalar"], "meta": c["meta"]} for c in cases[:2]]
     run.assumptions = ["rounding margin 64 u kappa2 sqrt(N M) for quantities behind a solve, 64 u sqrt(N M) for plain products"]
     return run.finish()
